@@ -3,7 +3,7 @@
 
 use crate::driver::Cfg;
 use crate::engine::Plan;
-use crate::histx::{add_quiet, enum_commit_histories, sort_by_bound, with_control_everywhere};
+use crate::histx::{add_quiet, enum_commit_histories, sort_by_bound, via_overlays, with_control_everywhere};
 use serde_json::{json, Value};
 
 fn acts(list: &[(&str, Option<usize>)]) -> Vec<Value> {
@@ -247,12 +247,27 @@ fn structural_family(thorough: bool, buckets: &[u32]) -> Vec<Value> {
         let a_seed = acts(&[("w", Some(1300)), ("w", Some(1)), ("d", None), ("w", Some(70000))]);
         cases.extend(enum_commit_histories(2, 6, 2, &a_seed, &mk_case("leaf", vec!["seed:0,2,3,5", "CL0:0-2"], &cfg, "noproof", false)));
         let a = acts(&[("w", Some(1)), ("d", None)]);
+        let mut through_overlays = vec![];
         for p in [12usize, 18] {
             for n in [19u32, 20, 21] {
                 let seed = format!("cl{p}x{n}");
                 let uni = format!("CL{p}:{}-{}", n - 2, n + 2);
-                cases.extend(enum_commit_histories(2, 4, if thorough { 3 } else { 2 }, &a, &mk_case(&seed, vec![&uni], &cfg, "noproof", false)));
+                let cs = enum_commit_histories(2, 4, if thorough { 3 } else { 2 }, &a, &mk_case(&seed, vec![&uni], &cfg, "noproof", false));
+                if p == 12 || thorough {
+                    through_overlays.extend(cs.iter().cloned());
+                }
+                cases.extend(cs);
             }
+        }
+        // depth-1 pages created and cleared: pairs of keys that each need a page of their own
+        if bk == buckets[0] || thorough {
+            let pairs = enum_commit_histories(2, 8, if thorough { 3 } else { 2 }, &a, &mk_case("empty", vec!["PAIRS:4"], &cfg, "noproof", false));
+            through_overlays.extend(pairs.iter().cloned());
+            cases.extend(pairs);
+            // the same page-creating / page-clearing histories with every commit made through an
+            // overlay (one by one, and as a chain committed in order)
+            cases.extend(via_overlays(&through_overlays, false));
+            cases.extend(via_overlays(&through_overlays, true));
         }
         if bk >= 1024 {
             let a_ovf2 = acts(&[("d", None), ("w", Some(70000)), ("w", Some(1))]);
